@@ -498,6 +498,22 @@ func (m *csMachine) genRecipient(t *rapid.T, who int, double bool) string {
 	}
 }
 
+// exactOutput looks for an output amount whose price division leaves no remainder (the residue where
+// "floor+1" charges one unit more than necessary); nil if none is found among the 64 largest outputs.
+func exactOutput(rin, rout, delta *big.Int) *big.Int {
+	for i := int64(1); i <= 64; i++ {
+		mm := big.NewInt(i)
+		out := sub(rout, mm)
+		if out.Sign() <= 0 {
+			return nil
+		}
+		if _, exact := refOutputPriceMin(out, rin, rout, delta); exact {
+			return out
+		}
+	}
+	return nil
+}
+
 // codePay mirrors the shape of the output price (floor+1); used to aim bounds only.
 func codePay(out, rin, rout, delta *big.Int) *big.Int {
 	if out.Cmp(rout) >= 0 || rin.Sign() == 0 {
@@ -543,6 +559,11 @@ func (m *csMachine) genSwap(t *rapid.T, live []*poolInfo) csOp {
 				out = sub(rout, big1)
 				if out.Sign() <= 0 {
 					out = big.NewInt(1)
+				}
+			}
+			if uni(t, "exactdiv", 8) == 0 {
+				if e := exactOutput(rin, rout, delta); e != nil {
+					out = e
 				}
 			}
 			pay := codePay(out, rin, rout, delta)
@@ -669,8 +690,12 @@ func (m *csMachine) build(op csOp, loosened bool) sdk.Msg {
 		maxTok, minLiq := bi(op.B), bi(op.C)
 		if loosened {
 			minLiq = big.NewInt(0)
-			if b := cell(m.sheet, sender, op.Pool); b.Cmp(maxTok) > 0 {
-				maxTok = b
+			// a first deposit takes MaxToken as it is, so only later deposits get a loosened maximum
+			if p, ok := m.pools[op.Pool]; ok {
+				S, T, L := m.pstate(m.sheet, p)
+				if b := cell(m.sheet, sender, op.Pool); S.Sign() > 0 && T.Sign() > 0 && L.Sign() > 0 && b.Cmp(maxTok) > 0 {
+					maxTok = b
+				}
 			}
 		}
 		return &cstypes.MsgAddLiquidity{MaxToken: coin(op.Pool, maxTok), ExactStandardAmt: sdkmath.NewIntFromBigInt(bi(op.A)),
@@ -948,6 +973,11 @@ func (m *csMachine) oracleC01(op csOp, before, after chain.Sheet, delta chain.De
 				return pbt.Failf(sig, "swap %+v, leg %s->%s on pool %s: %s", op, in, out, p.denom, msg)
 			}
 			m.cnt["leg-checked"]++
+			if op.Buy {
+				if _, exact := refOutputPriceMin(received, rin, rout, deltaFee); exact {
+					m.cnt["buy-leg-exact-division"]++
+				}
+			}
 			return nil
 		}
 		if !double {
@@ -1375,3 +1405,9 @@ func TestReplay(t *testing.T) { pbt.ReplayMain(t) }
 func TestC01(t *testing.T) { pbt.RunMachine(t, "C01", "c01", c01Rule, newC01) }
 
 func TestC02(t *testing.T) { pbt.RunMachine(t, "C02", "c02", c02Rule, newC02) }
+
+// The *Long entry points are the same machines; the driver gives them their own seed, a longer history
+// (-rapid.steps) and their own process, so that deep pool states are reached within the quick budget.
+func TestC01Long(t *testing.T) { pbt.RunMachine(t, "C01", "c01", c01Rule, newC01) }
+
+func TestC02Long(t *testing.T) { pbt.RunMachine(t, "C02", "c02", c02Rule, newC02) }
